@@ -47,7 +47,7 @@ type File struct {
 type Workspace struct {
 	ID     int    `json:"id"`
 	Files  []File `json:"files"`
-	Config string `json:"config"` // "default" | "enable-all" | "old-caps"
+	Config string `json:"config"` // "default" | "enable-all" | "old-caps" | "few-rules"
 	Custom bool   `json:"custom"` // custom aggregate rules loaded
 }
 
@@ -163,11 +163,13 @@ var dirPool = []string{"", "a", "a/b", "c", "a/b/d"}
 // GenWorkspace: n files with distinct names in a few directories.
 func GenWorkspace(rng *hutil.Rng, id, n int) Workspace {
 	ws := Workspace{ID: id}
-	switch rng.Below(5) {
+	switch rng.Below(6) {
 	case 0:
 		ws.Config = "enable-all"
 	case 1:
 		ws.Config = "old-caps"
+	case 2:
+		ws.Config = "few-rules"
 	default:
 		ws.Config = "default"
 	}
@@ -198,6 +200,9 @@ func (ws Workspace) Write(root string) error {
 	return nil
 }
 
+// FewRules: the rules enabled by the "few-rules" configuration.
+var FewRules = []string{"prefer-snake-case", "no-defined-entrypoint"}
+
 const oldCapsYAML = "capabilities:\n  from:\n    engine: opa\n    version: v0.46.0\n"
 
 // UserConfig of a workspace (nil for the defaults).
@@ -224,6 +229,10 @@ func (ws Workspace) NewLinter() (linter.Linter, error) {
 	}
 	if ws.Config == "enable-all" {
 		l = l.WithEnableAll(true)
+	}
+	if ws.Config == "few-rules" {
+		// only one per-file rule and one aggregate rule that reports on the ABSENCE of aggregates
+		l = l.WithDisableAll(true).WithEnabledRules(FewRules...)
 	}
 	if ws.Custom {
 		l = l.WithCustomRulesFromFS(CustomFS(), ".")
@@ -252,13 +261,14 @@ type AggKey struct {
 
 // Canon: a report with every order-free part sorted.
 type Canon struct {
-	Viol    []Viol   `json:"viol"`
-	Notices []Notice `json:"notices"`
-	Aggs    []AggKey `json:"aggs"` // exported aggregates (only when requested)
-	Scanned int      `json:"scanned"`
-	Failed  int      `json:"failed"`
-	Skipped int      `json:"skipped"`
-	Num     int      `json:"num"`
+	Viol    []Viol     `json:"viol"`
+	Notices []Notice   `json:"notices"`
+	Aggs    []AggKey   `json:"aggs"` // exported aggregates (only when requested)
+	Dirs    [][]string `json:"dirs"` // exported ignore directives: (file, digest), sorted
+	Scanned int        `json:"scanned"`
+	Failed  int        `json:"failed"`
+	Skipped int        `json:"skipped"`
+	Num     int        `json:"num"`
 }
 
 func digest(v any) string {
@@ -336,7 +346,7 @@ func SortNotices(ns []Notice) {
 }
 
 func CanonReport(r report.Report, rel Rel) Canon {
-	c := Canon{Viol: []Viol{}, Notices: []Notice{}, Aggs: []AggKey{},
+	c := Canon{Viol: []Viol{}, Notices: []Notice{}, Aggs: []AggKey{}, Dirs: [][]string{},
 		Scanned: r.Summary.FilesScanned, Failed: r.Summary.FilesFailed, Skipped: r.Summary.RulesSkipped, Num: r.Summary.NumViolations}
 	for _, v := range r.Violations {
 		c.Viol = append(c.Viol, CanonViol(v, rel))
@@ -349,6 +359,10 @@ func CanonReport(r report.Report, rel Rel) Canon {
 	if r.Aggregates != nil {
 		c.Aggs = CanonAggs(r.Aggregates, rel)
 	}
+	for k, d := range r.IgnoreDirectives {
+		c.Dirs = append(c.Dirs, []string{rel(k), digest(d)})
+	}
+	sort.Slice(c.Dirs, func(i, j int) bool { return c.Dirs[i][0] < c.Dirs[j][0] })
 	return c
 }
 
@@ -397,9 +411,13 @@ func NewOracle(ctx context.Context, ws Workspace) (*Oracle, error) {
 	if err != nil {
 		return nil, err
 	}
+	enable := []string{}
+	if ws.Config == "few-rules" {
+		enable = FewRules
+	}
 	params := map[string]any{
-		"disable_all": false, "disable_category": []string{}, "disable": []string{},
-		"enable_all": ws.Config == "enable-all", "enable_category": []string{}, "enable": []string{},
+		"disable_all": ws.Config == "few-rules", "disable_category": []string{}, "disable": []string{},
+		"enable_all": ws.Config == "enable-all", "enable_category": []string{}, "enable": enable,
 		"ignore_files": []string{},
 	}
 	data := &bundle.Bundle{
